@@ -734,13 +734,38 @@ impl Analyzable for MapConstructor {
     }
 }
 
+/// Symbols that stand for a value when their name is used as an expression (as opposed to type,
+/// asset, function, case and field names).
+fn symbol_is_value(symbol: &Symbol) -> bool {
+    matches!(
+        symbol,
+        Symbol::EnvVar(..)
+            | Symbol::ParamVar(..)
+            | Symbol::LocalExpr(_)
+            | Symbol::Output(_)
+            | Symbol::Input(_)
+            | Symbol::PartyDef(_)
+            | Symbol::PolicyDef(_)
+            | Symbol::Fees
+    )
+}
+
 impl Analyzable for DataExpr {
     fn analyze(&mut self, parent: Option<Rc<Scope>>) -> AnalyzeReport {
         match self {
             DataExpr::StructConstructor(x) => x.analyze(parent),
             DataExpr::ListConstructor(x) => x.analyze(parent),
             DataExpr::MapConstructor(x) => x.analyze(parent),
-            DataExpr::Identifier(x) => x.analyze(parent),
+            DataExpr::Identifier(x) => {
+                let report = x.analyze(parent);
+
+                match &x.symbol {
+                    Some(symbol) if !symbol_is_value(symbol) => {
+                        report + AnalyzeReport::from(Error::invalid_symbol("value", symbol, x))
+                    }
+                    _ => report,
+                }
+            }
             DataExpr::AddOp(x) => x.analyze(parent),
             DataExpr::SubOp(x) => x.analyze(parent),
             DataExpr::NegateOp(x) => x.analyze(parent),
@@ -862,7 +887,11 @@ impl Analyzable for PropertyOp {
 
         self.scope = Some(Rc::new(scope));
 
-        let path = self.property.analyze(self.scope.clone());
+        // a property name resolves to a record field, which is not a value on its own
+        let path = match self.property.as_mut() {
+            DataExpr::Identifier(field) => field.analyze(self.scope.clone()),
+            other => other.analyze(self.scope.clone()),
+        };
 
         object + path
     }
